@@ -6,16 +6,18 @@
 
 using namespace PSC;
 
+static unsigned long nextContextId = 1;
+
 Context::Context(Context *parent, const std::string &name)
     : Context(parent, name, false, PSC::DataType::NONE)
 {}
 
 Context::Context(Context *parent, const std::string &name, bool isFunctionCtx, PSC::DataType returnType)
-    : parent(parent), name(name), isFunctionCtx(isFunctionCtx), isCompositeCtx(false), returnType(returnType)
+    : parent(parent), name(name), id(nextContextId++), isFunctionCtx(isFunctionCtx), isCompositeCtx(false), returnType(returnType)
 {}
 
 Context::Context(Context *parent, const std::string &name, bool isCompositeCtx)
-    : parent(parent), name(name), isFunctionCtx(false), isCompositeCtx(isCompositeCtx), returnType(PSC::DataType::NONE)
+    : parent(parent), name(name), id(nextContextId++), isFunctionCtx(false), isCompositeCtx(isCompositeCtx), returnType(PSC::DataType::NONE)
 {}
 
 template<typename T, typename... Args>
@@ -30,6 +32,7 @@ void copyPtrVector(const std::vector<std::unique_ptr<T>> &source, std::vector<st
 Context::Context(const Context &other)
     : parent(other.parent),
     name(other.name),
+    id(nextContextId++),
     isFunctionCtx(other.isFunctionCtx),
     isCompositeCtx(other.isCompositeCtx),
     returnType(other.returnType)
